@@ -190,7 +190,7 @@ func c14BlockedDuringFlush(r *verdict.Run) {
 
 func checkC14(r *verdict.Run) {
 	r.Rule = "scripts over 3-5 connections of one emulator, commands executed one at a time in a generated global order: SELECT with valid and invalid indexes, the same key names in several databases, FLUSHDB/FLUSHALL (with SYNC/ASYNC), DBSIZE/KEYS, CLIENT SETNAME/GETNAME, HELLO 2/3/other, MULTI/EXEC/WATCH on one connection while others work, connections opened before and after flushes; " +
-		"oracle: every reply = reference model with per-connection sessions; after every step every database in use is dumped through an observer connection and compared (so a flush must be what every client sees). Plus: a client blocked on a key during FLUSHDB/FLUSHALL must be served by a later push; 2-4 connections select a never used database at the same moment (15 databases per fresh emulator): they must share one namespace (mutual reads, DBSIZE, FLUSHALL). distinct = (command, MULTI state, database, outcome class)"
+		"oracle: every reply = reference model with per-connection sessions; after every step every database in use is dumped through an observer connection and compared (so a flush must be what every client sees). Plus: directed transactions MULTI; SELECT b; <FLUSHDB|FLUSHALL|DBSIZE|KEYS|RANDOMKEY|SET|DEL|RENAME|COPY|SCAN ...>; EXEC from database a for several (a, b), every database compared with the model afterwards; a client blocked on a key during FLUSHDB/FLUSHALL must be served by a later push; 2-4 connections select a never used database at the same moment (15 databases per fresh emulator): they must share one namespace (mutual reads, DBSIZE, FLUSHALL). distinct = (command, MULTI state, database, outcome class)"
 	nscripts := tierPick(r, 300, 6000)
 	perChild := 20
 	nsh := (nscripts + perChild - 1) / perChild
@@ -233,6 +233,7 @@ func checkC14(r *verdict.Run) {
 		}
 	})
 	c14BlockedDuringFlush(r)
+	c14QueuedSelectThenCommand(r)
 	c14ConcurrentFirstUse(r, tierPick(r, 24, 240))
 }
 
@@ -348,4 +349,64 @@ func c14ConcurrentFirstUse(r *verdict.Run, nemu int) {
 	})
 	r.Count("first_use_selects_released_together", firstUses)
 	r.Count("first_use_selects_overlapping_at_the_client", overlapping)
+}
+
+// c14QueuedSelectThenCommand: inside a transaction a queued SELECT moves the commands behind it to another database:
+// database-wide commands (flushes, DBSIZE, KEYS, RANDOMKEY, SCAN) and plain ones must then work on THAT database, for
+// every connected client. Directed programs in lock step with the model, all databases compared after every step.
+func c14QueuedSelectThenCommand(r *verdict.Run) {
+	c, err := startChild(false)
+	if err != nil {
+		r.Inconclusive("cannot start child")
+		return
+	}
+	defer func() { c.Stop() }()
+	bodies := [][][]string{
+		{{"FLUSHDB"}, {"DBSIZE"}}, {{"FLUSHDB", "ASYNC"}, {"DBSIZE"}}, {{"FLUSHDB", "SYNC"}, {"KEYS", "*"}}, {{"FLUSHALL"}, {"DBSIZE"}},
+		{{"DBSIZE"}, {"KEYS", "*"}, {"RANDOMKEY"}}, {{"SET", "k", "moved"}, {"DEL", "counter"}, {"DBSIZE"}}, {{"RENAME", "filler", "renamed"}, {"EXISTS", "filler", "renamed"}},
+		{{"COPY", "filler", "copied"}, {"DBSIZE"}}, {{"SCAN", "0", "COUNT", "100"}}, {{"RPUSH", "l", "x"}, {"LLEN", "l"}, {"TYPE", "l"}}, {{"EXPIRE", "filler", "100"}, {"TTL", "filler"}},
+	}
+	for _, ab := range [][2]int{{0, 1}, {1, 0}, {2, 5}, {0, 15}, {3, 3}} {
+		for bi, body := range bodies {
+			if !c.Alive() {
+				c.Stop()
+				if c, err = startChild(false); err != nil {
+					return
+				}
+			}
+			d, err := newDiffEnv(r, c, append([]string{"counter", "filler", "renamed", "copied"}, c14Keys...))
+			if err != nil {
+				r.Inconclusive("infra: " + err.Error())
+				return
+			}
+			d.monitor = "dbs"
+			d.addConn()
+			a, b := strconv.Itoa(ab[0]), strconv.Itoa(ab[1])
+			// both databases (and a third one) hold keys, written by the other connection
+			prog := [][]string{}
+			for _, db := range []string{a, b, "7"} {
+				prog = append(prog, []string{"SELECT", db}, []string{"SET", "filler", "in-" + db}, []string{"SET", "counter", "1"}, []string{"RPUSH", "l", "e-" + db})
+			}
+			ok := true
+			for _, p := range prog {
+				if _, ok = d.stepOn(1, p); !ok {
+					break
+				}
+			}
+			steps := [][]string{{"SELECT", a}, {"MULTI"}, {"SELECT", b}}
+			steps = append(steps, body...)
+			steps = append(steps, []string{"EXEC"}, []string{"DBSIZE"}, []string{"SELECT", a}, []string{"DBSIZE"})
+			for _, p := range steps {
+				if !ok {
+					break
+				}
+				_, ok = d.stepOn(0, p)
+				r.Eval(1)
+			}
+			if ok && !d.lastDiverged {
+				r.Distinct(fmt.Sprintf("queued-select/%d-to-%d/body-%d", ab[0], ab[1], bi))
+			}
+			d.close()
+		}
+	}
 }
